@@ -159,6 +159,18 @@ def run_path(con: Contract, case, prefix, worklist, report: FunctionReport, plan
     try:
         ctx.ghost["__case__"] = label or ""
         bindings, kwargs, self_obj = build_entry(I, con, node, case_types)
+        closure_env = None
+        if con.closure_vars:
+            import importlib
+
+            from .interp import Env
+
+            cv = {}
+            for n_, ty_ in con.closure_vars.items():
+                ty2 = (case_types or {}).get(n_, ty_)
+                cv[n_] = ty2.fresh(I, n_)
+            closure_env = Env(cv, None, importlib.import_module(modname).__dict__)
+            bindings.update(cv)
         if con.setup is not None:
             con.setup(I, bindings)
         for name, lam in con.lets:
@@ -213,9 +225,9 @@ def run_path(con: Contract, case, prefix, worklist, report: FunctionReport, plan
             if extra_kw:
                 kw.update(extra_kw)
             if self_obj is not None:
-                result = I.call_ast_function(node, modname, None, pos, kw, bound_self=self_obj)
+                result = I.call_ast_function(node, modname, closure_env, pos, kw, bound_self=self_obj)
             else:
-                result = I.call_ast_function(node, modname, None, pos, kw)
+                result = I.call_ast_function(node, modname, closure_env, pos, kw)
         except PyRaise as pr:
             raised = pr.exc
             exit_kind = "raise"
